@@ -800,6 +800,62 @@ pub fn check_world(r: &mut Report, d: &mut Driver, w: &gen::GWorld, tag: &str) {
     }
 }
 
+/// member `a` (path) depending on crates.io crate `b` at `bver`; empty store
+pub fn simple_world(bver: &str) -> gen::GWorld {
+    let graph = gen::GGraph {
+        pkgs: vec![
+            gen::GPkg { name: "a".into(), version: VetVersion::parse("1.0.0").unwrap(), source: 0, member: true, deps: vec![(1, 1)] },
+            gen::GPkg { name: "b".into(), version: VetVersion::parse(bver).unwrap(), source: 1, member: false, deps: vec![] },
+        ],
+        resolve_order: vec![0, 1],
+        member_order: vec![0],
+    };
+    let md = graph.metadata();
+    gen::GWorld {
+        graph,
+        md,
+        config: ConfigFile { cargo_vet: Default::default(), default_criteria: get_default_criteria(), imports: SortedMap::new(), policy: Default::default(), exemptions: SortedMap::new() },
+        audits: AuditsFile { criteria: SortedMap::new(), wildcard_audits: SortedMap::new(), audits: SortedMap::new(), trusted: SortedMap::new() },
+        imports: ImportsFile { unpublished: SortedMap::new(), publisher: SortedMap::new(), audits: SortedMap::new() },
+        live: None,
+    }
+}
+
+fn audit(kind: AuditKind, crit: &str) -> AuditEntry {
+    AuditEntry { who: vec![], criteria: vec![gen::sp(crit.to_owned())], kind, importable: true, notes: None, aggregated_from: vec![], is_fresh_import: false }
+}
+
+/// hand-written worlds run first in every tier: the witnesses of the known findings
+pub fn corpus(prop: &str) -> Vec<(String, gen::GWorld)> {
+    let mut out = Vec::new();
+    let viol = |req: &str| audit(AuditKind::Violation { violation: VersionReq::parse(req).unwrap() }, SAFE_TO_DEPLOY);
+    let publisher = |v: &str| CratesPublisher { version: VetVersion::parse(v).unwrap(), when: gen::date(5), user_id: 7, user_login: "u".into(), user_name: None, is_fresh_import: false };
+    if prop == "C04" {
+        // F1: violation + wildcard audit by the publisher
+        let mut w = simple_world("1.0.0");
+        w.audits.audits.insert("b".into(), vec![viol("*")]);
+        w.audits.wildcard_audits.insert("b".into(), vec![WildcardEntry { who: vec![], criteria: vec![gen::sp(SAFE_TO_DEPLOY.to_owned())], user_id: 7, start: gen::sp(gen::date(0)), end: gen::sp(gen::date(100)), renew: None, notes: None, aggregated_from: vec![], is_fresh_import: false }]);
+        w.imports.publisher.insert("b".into(), vec![publisher("1.0.0")]);
+        out.push(("corpus:C04-wildcard".to_owned(), w));
+        // F2: violation + trusted publisher
+        let mut w = simple_world("1.0.0");
+        w.audits.audits.insert("b".into(), vec![viol("*")]);
+        w.audits.trusted.insert("b".into(), vec![TrustEntry { criteria: vec![gen::sp(SAFE_TO_DEPLOY.to_owned())], user_id: 7, start: gen::sp(gen::date(0)), end: gen::sp(gen::date(100)), notes: None, aggregated_from: vec![] }]);
+        w.imports.publisher.insert("b".into(), vec![publisher("1.0.0")]);
+        out.push(("corpus:C04-trusted".to_owned(), w));
+        // unpublished link from a clean audited version to the violating in-graph version
+        let mut w = simple_world("2.0.0");
+        w.audits.audits.insert("b".into(), vec![viol("=2.0.0"), audit(AuditKind::Full { version: VetVersion::parse("1.0.0").unwrap() }, SAFE_TO_DEPLOY)]);
+        w.imports.unpublished.insert("b".into(), vec![UnpublishedEntry { version: VetVersion::parse("2.0.0").unwrap(), audited_as: VetVersion::parse("1.0.0").unwrap(), still_unpublished: false, is_fresh_import: false }]);
+        out.push(("corpus:C04-unpublished".to_owned(), w));
+        // control: the same violation against a full audit is caught
+        let mut w = simple_world("1.0.0");
+        w.audits.audits.insert("b".into(), vec![viol("*"), audit(AuditKind::Full { version: VetVersion::parse("1.0.0").unwrap() }, SAFE_TO_DEPLOY)]);
+        out.push(("corpus:C04-control-full-audit".to_owned(), w));
+    }
+    out
+}
+
 pub fn run(r: &mut Report, replay: Option<&str>) {
     let mut d = Driver::spawn();
     let (shard, nshards) = shard();
@@ -810,6 +866,12 @@ pub fn run(r: &mut Report, replay: Option<&str>) {
     let n = if r.thorough() { 24000 } else { 1600 } / nshards;
     let mut rng = Rng::new(r.seed.wrapping_add(shard.wrapping_mul(7919)));
     let only: Option<u64> = std::env::var("VERIF_ONLY").ok().and_then(|s| s.parse().ok());
+    if shard == 0 && only.is_none() {
+        for (tag, w) in corpus(&r.prop) {
+            check_world(r, &mut d, &w, &tag);
+        }
+        r.evaluations = 0;
+    }
     for i in 0..n {
         let mut crng = rng.fork();
         if let Some(o) = only {
